@@ -29,6 +29,7 @@ pub fn allowed_dev(property: &str) -> Dev {
                     Some("filter_ignored") => d.filter_ignored = true,
                     Some("corr_agg_empty_null") => d.corr_agg_empty_null = true,
                     Some("quant_two_valued") => d.quant_two_valued = true,
+                    Some("corr_null_outer") => d.corr_null_outer = true,
                     _ => {}
                 }
             }
